@@ -232,7 +232,7 @@ def run_history(case, rng, viol, counts, classes):
         for n, (i, o) in enumerate(calls):
             text = inputs[i][0]
             key = (i, dumps(o))
-            mode = rng.choice(("stream", "path", "stream", "main"))
+            mode = rng.choice(("stream", "path", "stream", "main", "zip"))
             if mode == "main" and any(x in o for x in ("-p", "-i", "-c")):
                 mode = "stream"
             # change the working directory and the heap between calls
@@ -243,6 +243,35 @@ def run_history(case, rng, viol, counts, classes):
             ropts = realise(o)
             if mode == "main":
                 got = run_main(text, ropts, rng, inputs, wd)
+            elif mode == "zip":
+                # a path that points into a zip archive (supported by open_file_for_reading)
+                import zipfile
+                zpath = os.path.join(wd, "bundle%d.zip" % rng.randrange(10 ** 6))
+                with zipfile.ZipFile(zpath, "w") as zf:
+                    zf.writestr("inner/case.pdb", text)
+                import propka.run
+                with obs.capture_logs():
+                    exc_t = None
+                    mol = None
+                    for f in os.listdir(wd):
+                        if f.endswith(".pka"):
+                            os.unlink(os.path.join(wd, f))
+                    try:
+                        mol = propka.run.single(os.path.join(zpath, "inner", "case.pdb"), tuple(ropts))
+                    except BaseException as e:
+                        if isinstance(e, (KeyboardInterrupt, MemoryError)):
+                            raise
+                        exc_t = type(e).__name__
+                run = obs.Run()
+                run.exc_type, run.exc, run.logs = exc_t, exc_t, []
+                run.rec = obs.record_of(mol, profiles=True) if mol is not None else None
+                run.text = None
+                cands = [f for f in os.listdir(wd) if f.startswith("case") and f.endswith(".pka")]
+                if cands:
+                    with open(os.path.join(wd, sorted(cands)[0])) as fh:
+                        run.text = fh.read()
+                os.unlink(zpath)
+                got = canonical(run)
             else:
                 run = obs.run_single(text, ropts, as_path=(mode == "path"), profiles=True)
                 got = canonical(run)
@@ -454,7 +483,7 @@ def verdict(tier, counts, classes, nontrivial, results):
         reasons.append("no history call compared with a fresh-interpreter reference")
     if counts.get("layout_runs", 0) == 0:
         reasons.append("no pseudo-address layout run")
-    for c in ("mode:main", "mode:path", "mode:stream"):
+    for c in ("mode:main", "mode:path", "mode:stream", "mode:zip"):
         if c not in classes:
             reasons.append("%s never exercised" % c)
     if not any(c.startswith("largest-coupled-set:") and int(c.split(":")[1]) >= 5 for c in classes):
